@@ -1,5 +1,6 @@
-use vkit::Check;
+mod c52;
+use vkit::{Check, Level};
 fn main() {
-    let checks: &[Check] = &[];
+    let checks: &[Check] = &[Check { id: "C52", level: Level::Exploration, run: c52::run }];
     vkit::main(checks);
 }
